@@ -332,6 +332,10 @@ def downgrade_scenarios():
         ("fallback-scsv-lower-client-vs-higher-server", dict(maxVersion=(3, 2), sendFallbackSCSV=True), dict(), "server:inappropriate_fallback"),
         ("fallback-scsv-at-common-maximum", dict(maxVersion=(3, 3), sendFallbackSCSV=True), dict(maxVersion=(3, 3)), "ok"),
         ("fallback-scsv-tls12-client-vs-tls13-server", dict(maxVersion=(3, 3), sendFallbackSCSV=True), dict(), "server:inappropriate_fallback"),
+        # the same retries by a client that also offers a cached session of the lower version
+        ("fallback-scsv-with-cached-session-tls11", dict(maxVersion=(3, 2), sendFallbackSCSV=True), dict(), "server:inappropriate_fallback", (3, 2)),
+        ("fallback-scsv-with-cached-session-tls12", dict(maxVersion=(3, 3), sendFallbackSCSV=True), dict(), "server:inappropriate_fallback", (3, 3)),
+        ("fallback-scsv-with-cached-session-at-maximum", dict(maxVersion=(3, 3), sendFallbackSCSV=True), dict(maxVersion=(3, 3)), "ok", (3, 3)),
     ]
 
 
@@ -340,9 +344,27 @@ def run_downgrade(rep):
     from tlslite.errors import TLSLocalAlert
     from tlslite.constants import AlertDescription
     ch, k = cred("rsa")
-    for name, cs, ss, expect in downgrade_scenarios():
+    from tlslite.api import SessionCache
+    for sc_ in downgrade_scenarios():
+        name, cs, ss, expect = sc_[:4]
         p = Pair("c04-dg-" + name)
-        st, co, so = p.handshake(ckw=dict(settings=settings(**cs)), skw=dict(certChain=ch, privateKey=k, settings=settings(**ss)))
+        ckw = dict(settings=settings(**cs))
+        skw = dict(certChain=ch, privateKey=k, settings=settings(**ss))
+        if len(sc_) > 4:
+            # an earlier connection at the lower version left a resumable session in the client and in the server's cache
+            cache = SessionCache()
+            v0 = sc_[4]
+            st, co, so = p.handshake(ckw=dict(settings=settings(minVersion=v0, maxVersion=v0)),
+                                     skw=dict(certChain=ch, privateKey=k, settings=settings(minVersion=v0, maxVersion=v0), sessionCache=cache))
+            if not (co.ok and so.ok):
+                rep.machinery_errors.append("downgrade scenario %s: prior connection failed" % name)
+                continue
+            p.close("c")
+            p.read("s", 10, 0)
+            ckw["session"] = p.c.session
+            skw["sessionCache"] = cache
+            p.reconnect()
+        st, co, so = p.handshake(ckw=ckw, skw=skw)
         rep.case(("downgrade", name), True)
         if expect == "ok":
             good = co.ok and so.ok
